@@ -114,8 +114,8 @@ PROPS = {
         'bounded_search': [('seq', 'all SEQUENCE shapes with n <= 4 components x kinds {mandatory, OPTIONAL, DEFAULT} x marker position x all presence patterns through the real Writer/Reader API against an X.691 reference encoding; cross-version pairs with up to 5 components')],
         'assumptions': [
             'same modelling assumptions as C03 (generated glue calls the protocol once per component)',
-            'direction V2 -> V1 with unknown additions PRESENT is a recorded known finding (KF-C05-unknown-additions): the lemma covers transmitted counts above the local count for the known additions and the bitmap skip, not the skipping of the unknown open types',
-            'open-type wrapping (with_buffer / read_whole_sub_slice) is not yet under contract in this check',
+            'direction V2 -> V1 with unknown additions PRESENT (repaired in 1f34165, formerly KF-C05-unknown-additions): the bitmap range of the scope keeps ALL transmitted presence bits (scope_read_step, drive_read post-condition); '
+            'UperReader::skip_unknown_extension_additions is verified to terminate and to leave no presence bit behind (each set one is skipped as open type through with_buffer, which ends at the announced end); read_sequence is verified to call it after the generated code and to hand an exhausted scope to scope_pushed',
         ],
         'trusted_base': COMMON_TRUSTED + PER_TRUSTED,
         'explanation': 'The reader driver lemma is stated for an ARBITRARY transmitted addition count k (read from the input) against the local count m: additions j < min(k, m) report bit j of the '
